@@ -33,6 +33,8 @@ T3 = [
 G5 = [DEFAULT, DEFAULT, I("http://a/g"), I("http://a/g"), B("g")]
 T4 = [(*t, g) for t, g in zip(T3, G5)]
 INPUTS = ("one", "five", "three_groups")
+# more namespace bindings than a small frame holds rows
+MANY_BINDINGS = tuple((f"p{i}", f"http://ns{i}.example/v#") for i in range(12))
 HUGE = 3_000_000  # a literal of 3 MB: frames between 2 and 4 MiB
 
 
@@ -87,6 +89,7 @@ def build(case: dict, opts=None, poison: bool = False):
     api, cls, entry = case["api"], case["cls"], case["entry"]
     lt, dl, fs, flow_name = case["logical"], case["delimited"], case["frame_size"], case["flow"]
     arity = 3 if cls == "triple" else 4
+    binds = MANY_BINDINGS if case.get("bindings") else ()
     groups = input_for(case["input"], arity)
     if poison:  # an input whose last statement is unencodable (the call must fail half-way)
         groups = [list(g) for g in groups]
@@ -97,7 +100,8 @@ def build(case: dict, opts=None, poison: bool = False):
     if opts is None:
         flow = None if flow_name == "inferred" else make_flow(flow_name, lt, fs)
         opts = DR.make_options(cls, (8, 4, 2), fs, dl, lt, generalized=(api == "generic"),
-                               rdf_star=(api == "generic"), flow=flow)
+                               rdf_star=(api == "generic"), flow=flow,
+                               ns=bool(case.get("bindings")))
     stream = None
     if api == "generic":
         from pyjelly.integrations.generic import serialize as ser  # noqa: PLC0415
@@ -108,13 +112,14 @@ def build(case: dict, opts=None, poison: bool = False):
             return DR.frames_to_bytes(ser.stream_frames(stream, (s for s in stmts)), dl), dl, stream
         if entry == "stream_frames_sink":
             stream = DR.g_stream(cls, opts)
-            return DR.frames_to_bytes(ser.stream_frames(stream, DR.g_sink(flat)), dl), dl, stream
+            return DR.frames_to_bytes(ser.stream_frames(stream, DR.g_sink(flat, binds)), dl), dl, \
+                stream
         out = io.BytesIO()
         if entry == "flat_to_file":
             stmts = [T.st_to_generic(s) for s in flat]
             ser.flat_stream_to_file((s for s in stmts), out, opts)
         else:
-            ser.grouped_stream_to_file((DR.g_sink(g) for g in groups), out, options=opts)
+            ser.grouped_stream_to_file((DR.g_sink(g, binds) for g in groups), out, options=opts)
         return out.getvalue(), True, None
     from pyjelly.integrations.rdflib import serialize as ser  # noqa: PLC0415
 
@@ -126,7 +131,7 @@ def build(case: dict, opts=None, poison: bool = False):
         return DR.frames_to_bytes(ser.stream_frames(stream, (s for s in stmts)), dl), dl, stream
     if entry == "stream_frames_graph":
         stream = DR.r_stream(cls, opts)
-        return DR.frames_to_bytes(ser.stream_frames(stream, DR.r_graph(flat, (), empty, order)), dl), \
+        return DR.frames_to_bytes(ser.stream_frames(stream, DR.r_graph(flat, binds, empty, order)), dl), \
             dl, stream
     out = io.BytesIO()
     if entry == "flat_to_file":
@@ -134,9 +139,9 @@ def build(case: dict, opts=None, poison: bool = False):
         ser.flat_stream_to_file((s for s in stmts), out, opts)
         return out.getvalue(), True, None
     if entry == "grouped_to_file":
-        ser.grouped_stream_to_file((DR.r_graph(g, (), empty, order) for g in groups), out, options=opts)
+        ser.grouped_stream_to_file((DR.r_graph(g, binds, empty, order) for g in groups), out, options=opts)
         return out.getvalue(), True, None
-    g = DR.r_graph(flat, (), empty, order)
+    g = DR.r_graph(flat, binds, empty, order)
     if entry == "graph_serialize_options":
         g.serialize(destination=out, format="jelly", options=opts)
         return out.getvalue(), dl, None
@@ -176,6 +181,10 @@ def run_case(case: dict):
             data, delimited, stream = build(case, opts)
         else:
             data, delimited, stream = build(case)
+    except (NameError, UnboundLocalError) as e:
+        from mc.env import HarnessError  # noqa: PLC0415
+
+        raise HarnessError(f"harness bug, not a refusal: {e!r}") from e
     except Exception as e:  # noqa: BLE001
         return "raised", type(e).__name__
     if not data:
@@ -247,6 +256,11 @@ def all_points(frame_sizes) -> list:
                                 if flow != "inferred" and fs == 2:
                                     pts.append((api, entry, cls, lt, dl, fs, flow, "five",
                                                 "flow"))
+                                if flow in ("inferred", "BoundedFrameFlow") and entry not in (
+                                        "stream_frames_gen", "flat_to_file"):
+                                    # containers with 12 namespace bindings, declarations on
+                                    pts.append((api, entry, cls, lt, dl, fs, flow, "five",
+                                                "bindings"))
                                 if flow == "inferred" and fs != 1:
                                     # options object reused after a failed call
                                     pts.append((api, entry, cls, lt, dl, fs, flow, "five", True))
@@ -269,7 +283,7 @@ def shard(job) -> dict:
     for api, entry, cls, lt, dl, fs, flow, inp, reuse in all_points(frame_sizes)[lo::hi]:
         case = {"api": api, "entry": entry, "cls": cls, "logical": lt, "delimited": dl,
                 "frame_size": fs, "flow": flow, "input": inp, "reuse": reuse is True,
-                "reuse_flow": reuse == "flow",
+                "reuse_flow": reuse == "flow", "bindings": reuse == "bindings",
                 "empty_graphs": reuse if str(reuse).startswith("empty-") else False}
         acc.evals += 1
         outcome, info = run_case(case)
